@@ -39,7 +39,7 @@ def log(*a):
 
 def go_env():
     env = dict(os.environ)
-    env["GOFLAGS"] = "-mod=mod"
+    env["GOFLAGS"] = "-mod=mod -trimpath"  # trimpath: scratch worktrees share build-cache entries
     env["GOPROXY"] = "off"
     env.pop("GOSUMDB", None)
     env.pop("GONOSUMDB", None)
